@@ -431,6 +431,15 @@ class XnDispatch(Lemma):
 
 
 UNITS = [ClosedForm(s) for s in MODELS.values()] + [XnExp(), XnDispatch(), DensityNonNegative()]
+
+
+def LATE_UNITS():
+    # "A truncated measure returns the integral over the intersection of [a,b] with its truncation interval and its
+    # density vanishes outside it": the contracts live in c01 (over the abstract measure layer) and are part of C09 too
+    from contracts import c01
+    return [c01.TruncatedInterval(), c01.TruncatedIntegrate(), c01.TruncatedDensity()]
+
+
 ASSUMPTIONS = ["A1: floats are mathematical reals", "A6: fundamental theorem of calculus (an antiderivative with the right base value is the integral)",
                "A4: sympy's differentiation / limits / simplification are trusted"]
 TRUSTED_BASE = ["sympy 1.14 (diff, limit, simplify)", "z3 5.1 for path feasibility", "pyvc interpreter + library models, z3->sympy translation"]
